@@ -37,6 +37,7 @@ STRATA = [
     ("dense", 1000, 8000),
     ("structured", 240, 1600),
     ("limits", 1800, 16000),
+    ("scale", 4, 30),
     ("exh-small", 1, 1),
     ("exh-3x3", 1, 1),
     ("exh-2x4", 1, 1),
@@ -252,6 +253,10 @@ def _gen_structured(rng, tier):
 
 
 def gen(stratum, rng, tier):
+    if stratum == "scale":
+        # hundreds of items that each have a row of their own (a cover selects hundreds of rows: search depth = number
+        # of rows selected) plus two rows covering a pair each, so that exactly four covers exist
+        return {"kind": "scale", "n": rng.randint(450, 800), "pairs": sorted(rng.sample(range(200), 2)), "shuffle": rng.randrange(1 << 30)}
     if stratum == "random":
         return _gen_random(rng, tier)
     if stratum == "planted":
@@ -606,7 +611,51 @@ def _run_exh(case, obs):
     obs.outcome("exhaustive")
 
 
+def _run_scale(case, obs):
+    import random
+
+    from vf.common import call, is_crash
+
+    n = case["n"]
+    rows = [[0] * n for _ in range(n)]
+    for i in range(n):
+        rows[i][i] = 1
+    for p in case["pairs"]:
+        r = [0] * n
+        r[2 * p] = r[2 * p + 1] = 1
+        rows.append(r)
+    random.Random(case["shuffle"]).shuffle(rows)
+    doubles = {i for i, r in enumerate(rows) if sum(r) == 2}
+
+    def valid(sel):
+        cov = [0] * n
+        for i in sel:
+            for j, v in enumerate(rows[i]):
+                cov[j] += v
+        return all(c == 1 for c in cov)
+
+    r1 = call(obs, _dlx.solve_exact_cover, [list(r) for r in rows], budget=40_000_000, what="solve_exact_cover[scale,first]")
+    if not is_crash(r1):
+        obs.event("xc.scale.judged")
+        if r1.status != _St.OPTIMAL or not isinstance(r1.solution, (tuple, list)) or not valid(r1.solution):
+            obs.violate("dlx.scale.first", f"{n} singleton rows + 2 pair rows: status {r1.status.name}, "
+                        f"{len(r1.solution) if r1.solution is not None else None} rows selected, not an exact cover")
+    r2 = call(obs, _dlx.solve_exact_cover, [list(r) for r in rows], find_all=True, budget=160_000_000, what="solve_exact_cover[scale,all]")
+    if not is_crash(r2):
+        obs.event("xc.scale.judged")
+        sols = r2.solution if isinstance(r2.solution, list) else None
+        ok = (r2.status == _St.OPTIMAL and sols is not None and len(sols) == 4 and all(valid(x) for x in sols)
+              and len({frozenset(x) & frozenset(doubles) for x in sols}) == 4)
+        if not ok:
+            obs.violate("dlx.scale.all", f"{n} singleton rows + 2 pair rows have exactly 4 covers: status {r2.status.name}, "
+                        f"{len(sols) if sols is not None else None} returned")
+    obs.nontrivial = True
+    obs.mode("exact")
+
+
 def run(case, obs):
+    if case["kind"] == "scale":
+        return _run_scale(case, obs)
     if case["kind"] == "exh":
         _run_exh(case, obs)
     else:
